@@ -142,6 +142,22 @@ TEXT["C16"] = dict(
     design_ref="DESIGN.md §6a",
 )
 
+TEXT["C18"] = dict(
+    category="other",
+    technique="Verus contracts on the real mapping() driver and Linear::execute + Kani on Linear::map + bounded native probed runs of the PSO template",
+    text=("The inertia-weight clause is decided by contracts on the real code: Linear::execute is proved (unbounded, arbitrary lenses) to "
+          "read the progress through its own input lens once, map it once and store the result once through its own output lens "
+          "(the mapping() driver is re-verified in this unit), and Linear::map is (end - start) * value + start bit-exactly for every "
+          "progress in [0, 1] at the weight pairs (0.9, 0.4) and (0.4, 0.9) (Kani). The other clauses (velocities within [-v_max, v_max], "
+          "moved by exactly the new velocity, the stored weight scales the old velocity, personal best = best evaluated position and "
+          "never worse, global best = best personal best, one entry per particle) live in State-based bodies built from multizip loops "
+          "and f64 arithmetic and are covered ONLY by bounded native runs of the real PSO template with probes between its components."),
+    note=("Level 'other'. Planned as not applicable; the interpolation clause turned out to be the mapping() contract already proved for "
+          "C17 plus one float kernel. Everything else is native_bounded in the evidence, never counted as proved. Linear::map with "
+          "symbolic weights does not finish in CBMC."),
+    design_ref="DESIGN.md §6a",
+)
+
 
 # ---- session-3 refinements, applied to the assembled strings (each `old` must occur: a stale patch is an error)
 _PATCHES = {
